@@ -33,6 +33,46 @@ class ShellInt:
         return f"{self.shell}.{self.name}"
 
 
+ANGMOM_DOMAIN = (0, 1, 2, 3)
+
+
+def compare_shell_int(interp, op, l, r, node):
+    """A comparison on a shell's angular momentum (only modified code has one in the assembly): decided by a candidate value of
+    that shell's angmom; Assembly.run_paths enumerates the candidates, so every consistent combination of outcomes is explored
+    and no inconsistent one."""
+    import ast as _ast
+
+    def val(x):
+        if isinstance(x, ShellInt) and x.name == "angmom":
+            if x.shell not in interp.oracle:
+                interp.oracle[x.shell] = ANGMOM_DOMAIN[0]
+                interp.oracle_new.append(x.shell)
+            return interp.oracle[x.shell]
+        if isinstance(x, int) and not isinstance(x, bool):
+            return x
+        return None
+    a, b = val(l), val(r)
+    if a is None or b is None:
+        return NotImplemented
+    table = {_ast.Eq: a == b, _ast.NotEq: a != b, _ast.Lt: a < b, _ast.LtE: a <= b, _ast.Gt: a > b, _ast.GtE: a >= b}
+    for k, v in table.items():
+        if isinstance(op, k):
+            return v
+    return NotImplemented
+
+
+def np_identity(interp, args, kwargs, node):
+    n = args[0] if args else None
+    if isinstance(n, Size) and len(n.axes) == 1 and not kwargs:
+        ax = n.axes[0]
+        if ax[0] == "dim" and ax[1][0] == "L" and interp.oracle.get(ax[1][1]) == 0:
+            # on this path the shell is an s shell: its Cartesian->spherical matrix is the 1x1 identity
+            sh = ax[1][1]
+            return Arr([dim("S", sh, None), dim("L", sh, None)], ("transform", sh))
+        return Arr([ax, ax], ("identity", ax))
+    raise AnalysisError("AXTYPE", "np.identity/np.eye with this argument is not modelled", interp.where(node))
+
+
 class SphLabels:
     def __init__(self, shell):
         self.shell = shell
@@ -105,7 +145,12 @@ class Assembly:
         it.hooks["shell_attr"] = shell_attr
         it.hooks[("func", "gbasis.spherical.generate_transformation")] = gen_transformation
         it.hooks[("abstract", "construct_array_contraction")] = self.kernel_hook
+        it.hooks["compare"] = compare_shell_int
+        it.hooks[("ext", "numpy.identity")] = np_identity
+        it.hooks[("ext", "numpy.eye")] = np_identity
         it.kernel_calls = []
+        it.oracle = {}
+        it.oracle_new = []
         return it
 
     def kernel_hook(self, interp, func, args, kwargs, node):
@@ -125,12 +170,43 @@ class Assembly:
     def make_self(self, shell_lists):
         return Obj(self.cls, {"_axes_contractions": tuple(tuple(l) for l in shell_lists)})
 
-    def run(self, method, shell_lists, args=(), kwargs=None):
+    def run(self, method, shell_lists, args=(), kwargs=None, oracle=None):
         it = self.new_interp()
+        if oracle is not None:
+            it.oracle.update(oracle)
+        self.last_interp = it
         f = self.cls.lookup(method)
         self_obj = self.make_self(shell_lists)
         res = it.call_function(f, [self_obj] + list(args), dict(kwargs or {}), None)
+        if oracle is None and it.oracle_new:
+            raise AnalysisError("AXTYPE", f"the assembly branches on the angular momentum of {sorted(it.oracle_new)}: decided per case under C09 only")
         return it, res
+
+    def run_paths(self, method, shell_lists, args=(), kwargs=None):
+        """Every consistent resolution of comparisons on shell angular momenta (none on the unmodified tree: one path).
+        Yields (oracle, outcome) with outcome = (it, res) or the exception raised on that path."""
+        stack = [{}]
+        seen = set()
+        while stack:
+            preset = stack.pop()
+            key = tuple(sorted(preset.items()))
+            if key in seen:
+                continue
+            seen.add(key)
+            try:
+                out = self.run(method, shell_lists, args=args() if callable(args) else args, kwargs=kwargs, oracle=dict(preset))
+            except Exception as ex:  # re-raised by the caller in its own handler
+                out = ex
+            it = self.last_interp
+            for k, sh in enumerate(it.oracle_new):
+                base = dict(preset)
+                for prev in it.oracle_new[:k]:
+                    base[prev] = it.oracle[prev]
+                for v in ANGMOM_DOMAIN[1:]:
+                    alt = dict(base)
+                    alt[sh] = v
+                    stack.append(alt)
+            yield dict(it.oracle), out
 
 
 def leaves(arr, nidx):
